@@ -178,6 +178,12 @@ CATALOG = [
                                       "begin { @first = \"\" } if (@first == \"\") { @first = $a } $first = @first",
                                       "$idx = NR % 3; if (NR > 2) { unset $x }",
                                       "map m = {}; m[NR] = $i; $s = joinv(m, \",\")"])]),
+    # user-defined functions of the same name in different stages are different functions (also as arguments of higher-order functions)
+    ("S", lambda r: ["put", r.choice(["func f(a) { return a * 10 } $y1 = apply([$i], f)[1]", "func f(a) { return a + 1 } $y2 = apply([$i], f)[1]",
+                                      "func f(a) { return a . \"!\" } $y3 = apply([$a], f)[1]", "func f(k, v) { return {toupper(k): v} } $y4 = joink(apply({\"q\": $i}, f), \",\")",
+                                      "func f(a, b) { return b <=> a } $y5 = joinv(sort([$i, 3, 40], f), \";\")", "func f(a, b) { return a <=> b } $y6 = joinv(sort([$i, 3, 40], f), \";\")",
+                                      "func f(acc, e) { return acc + e } $y7 = fold([$i, 1, 2], f, 0)", "func f(acc, e) { return acc . e } $y8 = fold([$i, 1, 2], f, \"\")",
+                                      "func g(a) { return a * 2 } func f(a) { return g(a) + 1 } $y9 = f($i)", "func g(a) { return a * 3 } func f(a) { return g(a) - 1 } $y0 = f($i)"])]),
     # key-index maintenance (records with >= 12 fields are hash-indexed lazily): rename / unlink / re-add paths
     ("S", lambda r: ["put", r.choice(["$[[1]] = \"new\"; $z = is_present($a) ? \"old-name-still-there\" : \"gone\"",
                                       "$[[2]] = \"a\"; $n = NF", "$[[[1]]] = \"v\"; $z = $a", "$[[3]] = $[[4]]; $nf = NF",
@@ -512,7 +518,10 @@ SAME_KIND = [
     [lambda r: ["put", r.choice(["$s = sub($a, \"(.)(.)\", \"\\2\\1\")", "if ($a =~ \"^(.)(.*)$\") { $c = \"\\2\\1\" }", "$f = fmtnum($x, \"%.2f\") . \":\" . fmtifnum($i, \"%05d\")",
                                 "$t = typeof($i) . typeof($x) . typeof($b)", "$k = strlen($a . $b) + $i * 2", "$j = joink($*, \",\")", "$m = format_values is absent ? 1 : 2" if False else "$m = asserting_not_null($a)",
                                 "$h = md5($a) . crc32($b)", "$u = toupper($a) . capitalize($b)", "$d = sec2gmt($i * 86400)", "$sp = splitax($a, \"a\")[1]",
-                                "$z = $x . \"\"; $w = $z + 1", "$n = NR . \":\" . NF", "func f(s) { return s . s } $g = f($a)"])],
+                                "$z = $x . \"\"; $w = $z + 1", "$n = NR . \":\" . NF", "func f(s) { return s . s } $g = f($a)",
+                                "func f(a) { return a * 10 } $h1 = apply([$i], f)[1]", "func f(a) { return a + 1 } $h2 = apply([$i], f)[1]",
+                                "func f(a, b) { return b <=> a } $h3 = joinv(sort([$i, 3, 40], f), \";\")", "func f(a, b) { return a <=> b } $h4 = joinv(sort([$i, 3, 40], f), \";\")",
+                                "func f(acc, e) { return acc + e } $h5 = fold([$i, 1, 2], f, 0)", "func f(acc, e) { return acc . e } $h6 = fold([$i, 1, 2], f, \"\")"])],
      lambda r: ["filter", r.choice(["$a =~ \"^[pew]\"", "$x > 0.2 && $i < 39", "strlen($b) >= 0", "is_string($a)"])],
      lambda r: ["sec2gmt", "-3", "i"], lambda r: ["format-values", "-n", "-f", "%.3f"], lambda r: ["gsub", "-f", "a,b", "[aeiou]", "_"], lambda r: ["sub", "-f", "a", "^(.)", "<\\1>"],
      lambda r: ["case", "-u", "-f", "a,b"], lambda r: ["having-fields", "--any-matching", "^[ab]$"], lambda r: ["rename", "-r", "^(.)$,f_\\1"], lambda r: ["cut", "-r", "-f", "^[abix]"],
